@@ -117,7 +117,8 @@ class ModelSpec(Spec):
                 if k == "@globals":
                     gstate.apply(dict(v))
                 else:
-                    setattr(store, k, v if not (isinstance(v, tuple) and v and v[0] == "path") else type(store.root)(v[1]))
+                    from .engine_s import decode
+                    setattr(store, k, decode(v, os.fspath(store.root), type(store.root)))
         return store, fresh, None
 
     def _hidden_after(self, store, fresh, hist, op):
